@@ -29,7 +29,16 @@ fn linear_locate_expr_joined_str(
     node: crate::ExprJoinedStr<TextRange>,
     location: SourceRange,
 ) -> Result<crate::ExprJoinedStr<SourceRange>, Infallible> {
-    let crate::ExprJoinedStr { range: _, values } = node;
+    let crate::ExprJoinedStr {
+        range: joined_range,
+        values,
+    } = node;
+
+    // A formatted value carries the range of the f-string token it comes from. That is the range
+    // of the whole joined string, unless the literal is an implicit concatenation that starts with
+    // another token ('s' f'{a}'). Tokens come in source order, so each one is located once, before
+    // its values are folded.
+    let mut token: Option<(TextRange, SourceRange)> = None;
 
     let mut located_values = Vec::with_capacity(values.len());
     for value in values.into_iter() {
@@ -43,6 +52,20 @@ fn linear_locate_expr_joined_str(
                 crate::Expr::Constant(node)
             }
             crate::Expr::FormattedValue(formatted) => {
+                let location = if formatted.range == joined_range {
+                    location
+                } else {
+                    match token {
+                        Some((range, location)) if range == formatted.range => location,
+                        _ => {
+                            let start = locator.locate(formatted.range.start());
+                            let end = locator.locate_only(formatted.range.end());
+                            let location: SourceRange = (start..end).into();
+                            token = Some((formatted.range, location));
+                            location
+                        }
+                    }
+                };
                 let node = crate::ExprFormattedValue {
                     range: location,
                     value: locator.fold(formatted.value)?,
